@@ -194,7 +194,7 @@ func Append(err error, errs ...error) *Error {
 			if len(errs) == 0 {
 				return nil
 			}
-			return Append(errs[0], errs[1:]...)
+			return Append((*Error)(nil), errs...)
 		}
 		return Append(WrapTyped(e), errs...)
 	}
